@@ -541,7 +541,7 @@ class Collection(object):
         self._store[object_id] = data
         try:
             self._ensure_uniques(data)
-        except DuplicateKeyError:
+        except Exception:
             # Rollback
             del self._store[object_id]
             raise
@@ -936,7 +936,7 @@ class Collection(object):
                 try:
                     self._ensure_uniques(existing_document)
                     num_updated += 1
-                except DuplicateKeyError:
+                except Exception:
                     # Rollback.
                     self._store[store_key] = original_document_snapshot
                     raise
